@@ -8,6 +8,7 @@ import (
 	"math/rand"
 	"net/netip"
 	"reflect"
+	"runtime"
 	"sync"
 	"testing"
 	"testing/synctest"
@@ -27,6 +28,7 @@ type stopScenario struct {
 	GateUnicast, GateMulti bool  // block these WriteTo calls ...
 	GateFinal              bool
 	Release                []int64 // ... until cancel + Release[k] (k-th gated write, cyclic); negative = before the cancel
+	OneP                   bool    // run on a single P: the solicitation and the cancel reach the scheduler's select together
 	Tags                   []string
 }
 
@@ -39,6 +41,9 @@ func runStopScenario(t *testing.T, sc stopScenario) verifh.Case {
 		runErr      error
 		cancelAt    int64
 	)
+	if sc.OneP {
+		defer runtime.GOMAXPROCS(runtime.GOMAXPROCS(1))
+	}
 	synctest.Test(t, func(t *testing.T) {
 		time.Sleep(time.Duration(7919 * int64(len(sc.ID))))
 		cfg := config.Interface{Name: "v0", Advertise: true, UnicastOnly: sc.UnicastOnly,
@@ -200,6 +205,11 @@ func TestVerifC08(t *testing.T) {
 			// exactly when the answer is due / solicitation in the same instant as the cancel
 			emit(stopScenario{ID: "due-now", Terminate: term, UnicastOnly: uo, Events: one, CancelAt: -1, Tags: tag("due-at-cancel")})
 			emit(stopScenario{ID: "rs-now", Terminate: term, UnicastOnly: uo, Events: one, CancelAt: T, Tags: tag("rs-at-cancel")})
+			// the same on one P, repeated: the scheduler's select sees the request and the cancellation together and
+			// picks either; both orders must end in a clean stop
+			for rep := 0; rep < 12; rep++ {
+				emit(stopScenario{ID: "rs-now-1p", Terminate: term, UnicastOnly: uo, Events: three, CancelAt: T + 2, OneP: true, Tags: tag("rs-at-cancel-one-P")})
+			}
 			// in flight (blocked in WriteTo) at the cancel, released after / at / before it
 			for _, rel := range [][]int64{{1e6}, {2e9}, {0}, {-1e6}, {5e9, 1e6, 2e9}, {1e6, 1e6, 1e6}, {3e9, 2e9, 1e9}} {
 				emit(stopScenario{ID: "inflight", Terminate: term, UnicastOnly: uo, Events: three, CancelAt: T + 600e6,
